@@ -2,6 +2,7 @@ package main
 
 import (
 	"encoding/base64"
+	"encoding/json"
 	"fmt"
 	"os"
 	"path/filepath"
@@ -429,6 +430,7 @@ func (c *c19Ctx) genScenario(seed uint64, progs []*c19Prog) *Scenario {
 	return s
 }
 
+var gridTraceFallback int
 var gridReachable = map[string]bool{}
 var gridTraces = map[string][]string{}
 
@@ -484,8 +486,15 @@ func gridScenarios(c *c19Ctx, progs []*c19Prog, mode string, baseSeed uint64) []
 		// reachable sites: what a fault-free run actually does on the two paths
 		tr := mk(&Fault{Kind: "trace"})
 		to, _, err := c.execute(tr, false)
-		if err != nil || to == nil || len(to.Trace) == 0 {
-			infraFail("cannot trace the fault-free run of %s: %v", p.Name, err)
+		if err != nil || to == nil {
+			js, _ := json.Marshal(to)
+			infraFail("cannot trace the fault-free run of %s: %v\noutcome: %s", p.Name, err, clip(js, 3000))
+		}
+		if len(to.Trace) == 0 {
+			// the command touched neither path in a way the tracer recognised (it may be broken: that is
+			// for the scenarios to judge, not for the harness): fall back to the usual sites, once each
+			to.Trace = []string{"src:newfstatat", "src:openat", "src:fstat", "src:read", "src:close", "dst:openat", "dst:write", "dst:ftruncate", "dst:close"}
+			gridTraceFallback++
 		}
 		counts := map[string]int{}
 		var order []string
@@ -898,6 +907,7 @@ func runC19(tierName string) int {
 			"random_scenarios":                   A.evals - nGrid,
 			"faults_planned":                     A.faultsPlanned,
 			"faults_fired":                       A.faultsFired,
+			"grid_trace_fallbacks":               gridTraceFallback,
 			"fault_address_miss":                 A.faultMiss,
 			"fault_grid_coverage":                map[string]any{"reachable_cells_hit": gridHit, "reachable_cells": possibleCells, "cells_hit_including_random_scenarios": len(A.gridCells), "cell": "target:syscall:errno:format with an injected fault that actually fired; reachable = the syscall occurs on that path in the fault-free strace of the grid program", "fault_free_traces": gridTraces},
 			"exit_status_histogram":              A.exitHist,
